@@ -107,6 +107,25 @@ pub fn generate(s: &mut Session, tier: &str, rng: &mut Rng) {
                     s.oracle_fail(&format!("service-ended:{}:{}", cfg.label(), seq.join("+")), &format!("after [{}] a service task had ended: `{}`", seq.join(", "), r));
                 }
             }
+            // names behind a resolver that does not answer: more such flows than the runtime has workers, then a flow to
+            // an address - it is served at once (a look-up waits by itself, not on a worker thread)
+            if crate::e2e::resolver_available() {
+                let vias: &[&str] = if cfg.udp { &["tcp", "udp"] } else { &["tcp"] };
+                for via in vias {
+                    s.subcase(&format!("silent-resolver-{}", via));
+                    let r = s.run(&format!("e2e.resolver {} n=8 via={}", w, via));
+                    s.count(&format!("fault:silent-resolver-{}", via));
+                    if r != "served" {
+                        s.oracle_fail(&format!("silent-resolver:{}:{}", cfg.label(), via), &format!("while {} flows were waiting for a resolver that does not answer, a flow to an address was not served: `{}`", 8, r));
+                    }
+                    let r = s.run(&format!("e2e.alive {}", w));
+                    if r != "alive" {
+                        s.oracle_fail(&format!("service-ended:{}:silent-resolver", cfg.label()), &format!("after flows to unresolvable names a service task had ended: `{}`", r));
+                    }
+                }
+            } else {
+                s.count("skipped:silent-resolver(no local resolver port)");
+            }
             s.run(&format!("e2e.stop {}", w));
             s.mark_nontrivial();
         }
